@@ -72,6 +72,25 @@ def run(chk):
         if m.get("kind") == "mismatch" and m["key"].endswith(":panic"):
             chk.finding(m["key"], {"stage": "A:texts", "ctx": m.get("ctx")})
     chk.stage("A:texts", texts=len(prow))
+    # indicator level: validate = false => init Err; init never panics; accepted instances never panic (MC_IndParams enumerates
+    # every single- and two-field deviation from the default configuration over a boundary grid)
+    cat = os.path.join(wd, "catalog.json")
+    open(cat, "w").write(run_harness(yv, ["ind-catalog"]))
+    ir = tlc("MC_IndParams", "MC_IndParams.cfg", workers=1, env={"CATALOG": cat}, timeout=1200)
+    if ir.error or ir.violation:
+        raise ToolError("MC_IndParams: %s" % (ir.error or ir.violation))
+    chk.add_tlc("MC_IndParams.cfg", ir, {"what": "36 indicators: every 1- and 2-field deviation from default over boundary grids per parameter type"})
+    irows = [p for t, p in ir.printed if t == "REPLAY"]
+    inf = os.path.join(wd, "indparams.ndjson")
+    write_ndjson(inf, irows)
+    ilines = lines_of(run_harness(yv, ["indparams-replay", inf, chk.seed, 200 if quick else 1000], timeout=3000))
+    for m in ilines:
+        if m.get("kind") == "mismatch":
+            chk.finding(m["key"], {"stage": "A:indicator-configs", "ctx": m.get("ctx")})
+    isumm = [l for l in ilines if l.get("kind") == "summary"][0]
+    chk.stage("A:indicators", configs=len(irows), accepted=isumm["extra"]["accepted"])
+    chk.cov["replayed_behaviours"] += len(irows)
+    chk.cov["traces_validated_against_impl"] += len(irows)
     chk.stage("A", rows=len(rows), constructed=summ["extra"]["constructed"], comparisons=summ["checked"])
     chk.cov["replayed_behaviours"] += summ["extra"]["constructed"]
     chk.cov["traces_validated_against_impl"] += summ["extra"]["constructed"]
